@@ -302,8 +302,16 @@ func runCase(phase string, i int) worker.Result {
 		points := e.Mon.ReachedPoints()
 		closure := e.Mon.Closure
 		e.Close()
-		if out.Hung || out.Stuck {
-			res.Violate("hang:fault-free", "fault-free run did not return", c.Describe())
+		if out.Hung {
+			w := c.Describe()
+			w["goroutines"] = out.Dump
+			res.Violate("hang:fault-free", "fault-free run did not return: no progress, nothing in flight, every library goroutine parked", w)
+			res.Restart = true
+			res.Evals = 1
+			return res
+		}
+		if out.Stuck {
+			res.Inconc = "watchdog fired on the fault-free run without a logical hang proof"
 			res.Restart = true
 			res.Evals = 1
 			return res
